@@ -72,6 +72,19 @@ func typeURN(name string) string {
 	return ""
 }
 
+// undecided: requested_token_type absent and the storage policy sets no default.
+const undecided = "undecided"
+
+// issuableName maps an issued_token_type URN to the name of a type the provider issues ("" = none of them).
+func issuableName(urn string) string {
+	for _, n := range []string{"access", "refresh", "id"} {
+		if urn == typeURN(n) {
+			return n
+		}
+	}
+	return ""
+}
+
 func supportedType(name string) bool {
 	return name == "access" || name == "refresh" || name == "id" || name == "jwt"
 }
@@ -178,7 +191,8 @@ func genCase(t *rapid.T) Case {
 		c.Audience = append(c.Audience, "client-i")
 	}
 	c.Resource = genSubset(t, "res", resPool, 2)
-	c.Policy.DefaultType = rapid.SampledFrom([]string{"", "access", "refresh", "id"}).Draw(t, "default")
+	// what the storage does with an absent requested_token_type: picks a type, or ("none") leaves it unset
+	c.Policy.DefaultType = rapid.SampledFrom([]string{"", "access", "refresh", "id", "none", "none"}).Draw(t, "default")
 	c.Policy.Impersonate = rapid.SampledFrom([]string{"", "", "", "u2", "u3", "svc-bot"}).Draw(t, "impersonate")
 	c.Policy.DropScopes = genSubset(t, "drop", scopePool, 2)
 	c.Policy.VerifyThird = rapid.Bool().Draw(t, "verifythird")
@@ -624,14 +638,21 @@ func run(c Case) (res *vkit.Result) {
 		av, aWhy = w.validity(*c.Actor, act)
 	}
 	cred, authV, authWhy := w.credential()
-	effective := c.Requested
+	// who decides the type of the issued token: the client (requested_token_type), else the storage policy's default,
+	// else nobody ("undecided": the statement then allows an OAuth error, or a success that truthfully declares what
+	// it contains - judged from the declared issued_token_type; never a 2xx with an empty / unsupported declaration)
+	effective, decidedBy := c.Requested, "client"
 	if effective == "" {
-		effective = c.Policy.DefaultType
-		if effective == "" {
-			effective = "access"
+		switch c.Policy.DefaultType {
+		case "none":
+			effective, decidedBy = undecided, "nobody"
+		case "":
+			effective, decidedBy = "access", "storage-default"
+		default:
+			effective, decidedBy = c.Policy.DefaultType, "storage-default"
 		}
 	}
-	issuable := effective == "access" || effective == "refresh" || effective == "id"
+	issuable := effective == undecided || effective == "access" || effective == "refresh" || effective == "id"
 
 	var rejectFP, rejectWhy string
 	switch {
@@ -740,6 +761,10 @@ func run(c Case) (res *vkit.Result) {
 		res.Grey = true
 		res.Label("grey")
 	}
+	res.Label("type-decided-by:" + decidedBy)
+	if effective == undecided && !mustReject {
+		res.Label("undecided-type:" + strings.SplitN(outcome, ":", 2)[0])
+	}
 	if c.Policy.Veto {
 		res.Label("policy:veto")
 	}
@@ -841,7 +866,14 @@ func libFrames(stack string, n int) string {
 // shapeOnly: the 2xx answer declares the decided type and carries a non-empty token in the member of that type.
 func shapeOnly(res *vkit.Result, resp *vkit.Resp, effective string) string {
 	itt := resp.Str("issued_token_type")
-	if itt != typeURN(effective) {
+	if effective == undecided {
+		// neither the client nor the storage chose a type: the answer must declare one of the issuable types itself
+		effective = issuableName(itt)
+		if effective == "" {
+			res.Fail("C15:issued-type-not-issuable", "2xx answer declares issued_token_type=%q which names nothing the provider issues (neither the client nor the storage chose a type); body %s", itt, clip(resp.Body))
+			return "unknown-type(shape)"
+		}
+	} else if itt != typeURN(effective) {
 		res.Fail("C15:issued-type-differs-from-decided-type", "issued_token_type=%q but the request / storage policy decided %q; body %s", itt, typeURN(effective), clip(resp.Body))
 	}
 	member := "access_token"
@@ -865,7 +897,9 @@ func (w *world) judgeSuccess(res *vkit.Result, resp *vkit.Resp, effective, expSu
 	itt := resp.Str("issued_token_type")
 	at := resp.Str("access_token")
 	rt := resp.Str("refresh_token")
-	if itt != typeURN(effective) {
+	if effective != undecided && itt != typeURN(effective) {
+		// (undecided: whatever issuable type the answer declares is then checked against the contained token below;
+		// an empty / unsupported declaration ends in C15:issued-type-not-issuable)
 		res.Fail("C15:issued-type-differs-from-decided-type", "issued_token_type=%q but the request / storage policy decided %q; body %s", itt, typeURN(effective), clip(resp.Body))
 	}
 	newIDs := newTokenIDs(w.st, before)
@@ -1044,7 +1078,7 @@ func (w *world) judgeSuccess(res *vkit.Result, resp *vkit.Resp, effective, expSu
 var prop = vkit.Prop[Case]{
 	ID: "C15",
 	Rule: "cases = subject token and optional actor token, each minted through the real code flow (opaque / JWT access token, refresh token, ID token; own or other client; user u1-u3) and then left live or expired / revoked / rotated / issued by a foreign provider / re-signed / wrong issuer / alg none / tampered, or a storage-vouched third-party token, or garbage " +
-		"x declared type (matching, other supported, unsupported, absent) x requested type (absent, access, refresh, id, jwt, unsupported) x scope / audience / resource lists x storage policy (default type, impersonation, dropped scopes, veto, third-party verifier, access-token liveness check on / off) x client auth method x credential presentation (right, secret by the other channel, wrong secret, none, unknown client, forged assertion, malformed Basic header) x client grants x issued access token format x signing key x router, drawn in three modes (every premise true / exactly one broken / free); " +
+		"x declared type (matching, other supported, unsupported, absent) x requested type (absent, access, refresh, id, jwt, unsupported) x scope / audience / resource lists x storage policy (default type when requested_token_type is absent: access / refresh / id / none = left unset, impersonation, dropped scopes, veto, third-party verifier, access-token liveness check on / off) x client auth method x credential presentation (right, secret by the other channel, wrong secret, none, unknown client, forged assertion, malformed Basic header) x client grants x issued access token format x signing key x router, drawn in three modes (every premise true / exactly one broken / free); " +
 		"non-trivial = the request passes client authentication so the exchange logic decides; distinct = (router, auth method, credential, subject kind/state/declared, actor kind/state/declared, requested, default, format, impersonation, veto, verifier, outcome)",
 	Gen: genCase,
 	Run: run,
